@@ -51,7 +51,9 @@ def decide(asserts, timeout_ms=60000, tries=12, seed=0, keep_free=2, guided_time
     asserts = [a for a in asserts if not z3.is_true(a)]
     t0 = time.time()
     vs = list(variables) if variables is not None else free_vars(asserts)
-    if any(z3.is_false(z3.simplify(a)) for a in asserts):
+    if asserts and z3.is_false(z3.simplify(asserts[-1])):  # the negated post-condition is last: usually the one that collapses
+        return Result("unsat", None, time.time() - t0, "simplify", len(vs))
+    if any(z3.is_false(z3.simplify(a)) for a in asserts[:-1]):
         return Result("unsat", None, time.time() - t0, "simplify", len(vs))
 
     def guided():
